@@ -203,7 +203,7 @@ register('C12',
          'is on. Random configurations (types, attributes, key shapes, include/exclude, strategy, manager- and class-level column names, '
          'table-name format, schema, flat / joined / single-table inheritance, tracker) are built on the real code, the version Table is '
          'reflected into records and compared with `build` and with the property clauses; tables are created and a NULL-filled row '
-         'round-tripped; version_class/parent_class are checked to be inverse bijections.',
+         'round-tripped; version_class/parent_class are checked to be inverse bijections. The model function `build` IS the code: Gen/SchemaGen.v is regenerated on every build from the current table_builder.py and property_mod_tracker.py by a fail-closed translator and proved equal to it (C12_build_is_the_code).',
          COMMON_NOTE + 'Names, types and formats are numbered injectively per case. "Every other column nullable" is read as every reflected '
          'parent column outside the key (operation_type is NOT NULL by design). Association version tables are covered by C10\'s shape only.',
          'Coq proof (list reasoning over the column list) + reflection of real Table objects evaluated by vm_compute',
